@@ -123,8 +123,47 @@ func (k *witnessKM) VerifyRandomSeed(h primitives.BlockHeight, content []byte, s
 	return k.KM.VerifyRandomSeed(h, content, sender)
 }
 
+// SetSeed tells the seed judge which certificate's random-seed signature node entered height h with (scenarios whose syncs
+// do not carry canonical proofs); unknown=true: not determinable (a commit and a sync for the same height raced).
+func (net *Net) SetSeed(node string, h uint64, prevSig []byte, unknown bool) {
+	net.mu.Lock()
+	defer net.mu.Unlock()
+	if net.seedFor == nil {
+		net.seedFor = map[string]map[uint64]*seedInfo{}
+	}
+	if net.seedFor[node] == nil {
+		net.seedFor[node] = map[uint64]*seedInfo{}
+	}
+	net.seedFor[node][h] = &seedInfo{append([]byte{}, prevSig...), unknown}
+}
+
+type seedInfo struct {
+	prevSig []byte
+	unknown bool
+}
+
 func (net *Net) judgeSeed(node string, h uint64, content []byte) {
 	var prevSig []byte
+	net.mu.Lock()
+	scripted := net.seedFor != nil
+	var si *seedInfo
+	if scripted {
+		si = net.seedFor[node][h]
+	}
+	net.mu.Unlock()
+	if scripted {
+		if si == nil || si.unknown {
+			net.count("C17 seed checks skipped: seed of that height not determinable")
+			return
+		}
+		net.count("C17 commits judged for the term that handled them")
+		if want := sim.SeedBytesOf(si.prevSig); !bytes.Equal(content, want) {
+			for _, p := range []string{"C17", "C08"} {
+				net.violate(p, "message-handled-by-a-term-of-another-height", "node %s: the share of a COMMIT of height %d was verified against the random seed %q; the node entered that height with a certificate whose seed is %q: the message was handled by the protocol logic of a term of another height", node, h, content, want)
+			}
+		}
+		return
+	}
 	if h >= 2 {
 		c := net.Canon(h - 1)
 		if c == nil {
@@ -309,6 +348,7 @@ type Net struct {
 	maxCanon  uint64
 	frozen    int32                                                // router drops everything when set
 	HoldSend  func(from *RNode, m *interfaces.ConsensusRawMessage) // optional: a slow transport (set before the nodes start)
+	seedFor   map[string]map[uint64]*seedInfo
 	inflight  sync.WaitGroup
 }
 
